@@ -2,7 +2,7 @@
 #![allow(dead_code)]
 use std::cell::RefCell;
 
-use explorer::task::{disown_select, own_select, End, Exec};
+use explorer::task::{disown_select, End, Exec};
 use explorer::{catch, Chooser};
 use p2panda_core::{Hash, SeqNum, VerifyingKey};
 use p2panda_store::logs::LogStore;
@@ -14,6 +14,40 @@ use crate::fixtures::{duplex, Cap, Ext, LogIdT, Op};
 
 pub type Msg = LogSyncMessage<LogIdT>;
 pub type Evt = LogSyncEvent<Ext>;
+
+/// Marker at the start of the panic message raised by the select guard.
+pub const SPIN: &str = "SELECT-SPIN";
+
+/// Own the `tokio::select!` start branch like `explorer::task::own_select`, with a guard against a
+/// `loop { select! { .. else => {} } }` that spins inside a single poll (it would never return to
+/// the executor and grow the choice log without bound): only the first 200 decisions of an
+/// execution are drawn from the chooser (later ones take branch 0 unrecorded) and decision number
+/// 5000 panics with a `SELECT-SPIN` message, which the caller reports as a livelock.
+pub fn own_select_guarded(ch: &Chooser) {
+    let ch = ch.clone();
+    let mut n = 0u32;
+    tokio::verif::set_select_hook(Some(Box::new(move |k| {
+        n += 1;
+        if n > 5000 {
+            panic!("{SPIN}: more than 5000 select! iterations in one execution");
+        }
+        if n > 200 {
+            return 0;
+        }
+        ch.choose(k as usize, "select") as u32
+    })));
+}
+
+/// `DfsCfg` for one configuration: deviation bound, at most 20000 executions, and no execution
+/// started after the check's deadline.
+pub fn dfs_cfg(max_dev: usize, deadline: std::time::Instant) -> explorer::DfsCfg {
+    explorer::DfsCfg {
+        max_dev,
+        max_execs: 20_000,
+        wall: deadline.saturating_duration_since(std::time::Instant::now()) + std::time::Duration::from_millis(200),
+        threads: 1,
+    }
+}
 
 /// Wire symbol of a message (for the C20 monitor).
 #[derive(Clone, Copy, Debug, PartialEq, Eq, Hash, PartialOrd, Ord)]
@@ -96,7 +130,7 @@ where
     let pa = LogSync::<LogIdT, Ext, S, Evt>::new(sa, la, ev_a.clone());
     let pb = LogSync::<LogIdT, Ext, S, Evt>::new(sb, lb, ev_b.clone());
 
-    own_select(ch);
+    own_select_guarded(ch);
     let r = catch(|| {
         let mut ex = Exec::new();
         ex.spawn("A", async {
